@@ -58,7 +58,9 @@ AllInsideZ(geo, row) == \A i \in 1..Len(row) : InsideZ(geo, row[i])
 RayPos2n(s, ds, ntl, j) == 2 * ntl * s - ds * (ntl - 1) + 2 * j * ds      \* position of ray j, times 2*ntl
 \* use_actual_detector_boundaries is honoured only for data without mashing and axial compression;
 \* the rays of one bin are then twice as far apart ("the resulting strip is twice as wide")
-UadbEff(geo) == GridOf(geo).uadb
+\* (block geometry always uses the actual detector positions; the symmetry left to it, shift_z, does not
+\* touch the in-plane geometry, so no exemption is needed there)
+UadbEff(geo) == GridOf(geo).uadb /\ geo.geom = "Cylindrical"
 RaySpacing(geo, ds) == IF UadbEff(geo) THEN 2 * ds ELSE ds
 OnBoundary(u, unit) == LET f == Mod(u + unit \div 2, unit) IN f <= unit \div 1024 \/ f >= unit - unit \div 1024
 \* "Bins whose LOR end points lie on a voxel boundary (where which voxel is 'first' is a rounding tie) are
@@ -154,14 +156,21 @@ Outcome(r) ==
                  ELSE LET rf == TraceLog[cfgLine + r.ref]
                           refOk == /\ r.ref >= 1 /\ cfgLine + r.ref <= Len(TraceLog) /\ rf.e = "Ref"
                                    /\ rf.gid \in 1..Len(geoms) /\ geoms[rf.gid] = geo /\ rf.b = r.b
-                          rest == hooksOk /\ ~r.err /\ refOk
+                          \* the returned row is labelled with the requested bin (S1 at row level); known finding
+                          \* C03-blocks-binlabel: for block geometry the z_shift operation adds the axial position of
+                          \* the bin, not the difference to the basic bin, so the label is off when the basic bin is not at 0
+                          labelOk == BinOfList(r.rb) = b
+                          blocksLabel == st.g.geom = "BlocksOnCylindrical" /\ FindBasicG(st.c, st.g, st.esw, b) # b
+                                         /\ BinOfList(r.rb) = [b EXCEPT !.ax = FindBasicG(st.c, st.g, st.esw, b).ax + b.ax]
+                          rest == hooksOk /\ ~r.err /\ refOk /\ (labelOk \/ blocksLabel)
                           cls == IF rest /\ UadbExempt(geo, b) /\ ~RowEq(r.row, rf.row)
                                  THEN (IF RowSound(geo, r.row) THEN "C03-uadb" ELSE "new")
                                  ELSE IF rest /\ InterpExempt(geo) /\ ~RowEq(r.row, rf.row)
                                  THEN (IF RowSound(geo, r.row) THEN "C03-interp-history" ELSE "new")
                                  ELSE IF rest /\ InterpSwapExempt(geo, b) /\ ~(RowEq(r.row, rf.row) /\ RowSound(geo, r.row))
                                  THEN (IF NonNegNoTwice(r.row) THEN "C03-interp-nonsquare" ELSE "new")
-                                 ELSE RowClass(geo, r.row, rest /\ (Tie(geo, rf) \/ RowEq(r.row, rf.row)))
+                                 ELSE LET c0 == RowClass(geo, r.row, rest /\ (Tie(geo, rf) \/ RowEq(r.row, rf.row))) IN
+                                      IF c0 # "new" /\ ~labelOk THEN "C03-blocks-binlabel" ELSE c0
                       IN Res(cls = "ok", cls, o.st)
          ELSE Res(FALSE, "new", st)
     [] OTHER -> Res(FALSE, "new", st)
@@ -175,7 +184,8 @@ Next == /\ l <= Len(TraceLog)
            ELSE IF r.e = "Geom" THEN
              /\ UNCHANGED <<cfgLine, st, hist>>
              /\ geoms' = Append(geoms, GeoOf(r))
-             /\ bad' = IF r.gid = Len(geoms) + 1 /\ GeometryOk(r) /\ r.geom = "Cylindrical" /\ r.ntl >= 1 /\ r.impl \in Impls THEN bad ELSE Note("new")
+             /\ bad' = IF r.gid = Len(geoms) + 1 /\ GeometryOk(r) /\ r.ntl >= 1 /\ r.impl \in Impls
+                          /\ (r.geom = "Cylindrical" \/ (r.impl = "RayTracing" /\ BlocksConfigOk(CfgOf(r), GridOf(r)))) THEN bad ELSE Note("new")
            ELSE LET o == Outcome(r) IN
              /\ UNCHANGED <<cfgLine, geoms>>
              /\ st' = o.st
